@@ -1,7 +1,445 @@
-use serde_json::Value;
+//! Adapters for identifier parsing / accessors / constructors (C10) and Matrix URIs (C11).
 
-use crate::OpResult;
+use std::{rc::Rc, sync::Arc};
 
-pub fn dispatch(_op: &str, _cmd: &Value) -> Option<OpResult> {
-    None
+use ruma_common::{
+    matrix_uri::{MatrixId, UriAction},
+    AnyKeyName, Base64PublicKey, Base64PublicKeyOrDeviceId, ClientSecret, CrossSigningKeyId,
+    CrossSigningOrDeviceSigningKeyId, DeviceId, DeviceKeyId, DeviceSigningKeyId, EventId,
+    MatrixToUri, MatrixUri, MxcUri, OneTimeKeyId, OneTimeKeyName, OwnedEventId, OwnedRoomAliasId,
+    OwnedRoomId, OwnedServerName, OwnedUserId, RoomAliasId, RoomId, RoomOrAliasId, RoomVersionId,
+    ServerName, ServerSigningKeyId, ServerSigningKeyVersion, SessionId, SigningKeyId,
+    TransactionId, UserId, VoipId,
+};
+use serde_json::{json, Map, Value};
+
+use crate::{b, opt_s, s, OpResult};
+
+fn r<T: AsRef<str>, E: std::fmt::Display>(x: Result<T, E>) -> Value {
+    match x {
+        Ok(v) => json!({"ok": v.as_ref()}),
+        Err(e) => json!({"err": e.to_string()}),
+    }
+}
+
+/// All acceptance forms of a validated identifier type + the text each form stores/prints.
+macro_rules! checked_forms {
+    ($ty:ty, $owned:ty, $s:expr) => {{
+        let s: &str = $s;
+        let mut m = Map::new();
+        m.insert("borrowed".into(), r(<&$ty>::try_from(s).map(|i| i.as_str().to_owned())));
+        m.insert("owned".into(), r(<$ty>::parse(s).map(|i| i.as_str().to_owned())));
+        m.insert("box".into(), r(<$ty>::parse_box(s).map(|i| i.as_str().to_owned())));
+        m.insert(
+            "rc".into(),
+            r(<$ty>::parse_rc(Rc::<str>::from(s)).map(|i: Rc<$ty>| i.as_str().to_owned())),
+        );
+        m.insert(
+            "arc".into(),
+            r(<$ty>::parse_arc(Arc::<str>::from(s)).map(|i: Arc<$ty>| i.as_str().to_owned())),
+        );
+        m.insert("fromstr".into(), r(s.parse::<$owned>().map(|i| i.as_str().to_owned())));
+        m.insert(
+            "try_from_string".into(),
+            r(<$owned>::try_from(s.to_owned()).map(|i| i.as_str().to_owned())),
+        );
+        let js = serde_json::to_string(s).unwrap();
+        m.insert(
+            "serde".into(),
+            r(serde_json::from_str::<$owned>(&js).map(|i| i.as_str().to_owned())),
+        );
+        m.insert(
+            "serde_box".into(),
+            r(serde_json::from_str::<Box<$ty>>(&js).map(|i| i.as_str().to_owned())),
+        );
+        let mut out = Map::new();
+        if let Ok(id) = <$ty>::parse(s) {
+            out.insert("display".into(), json!(id.to_string()));
+            out.insert("json".into(), json!(serde_json::to_string(&id).unwrap_or_default()));
+            out.insert("string_from".into(), json!(String::from(id.clone())));
+            let bytes: &[u8] = id.as_bytes();
+            out.insert("bytes_equal".into(), json!(bytes == s.as_bytes()));
+        }
+        out.insert("forms".into(), Value::Object(m));
+        out
+    }};
+}
+
+macro_rules! unchecked_forms {
+    ($ty:ty, $owned:ty, $s:expr) => {{
+        let s: &str = $s;
+        let mut m = Map::new();
+        let b: &$ty = s.into();
+        m.insert("borrowed".into(), json!({"ok": b.as_str()}));
+        let o: $owned = s.into();
+        m.insert("owned".into(), json!({"ok": o.as_str()}));
+        let js = serde_json::to_string(s).unwrap();
+        m.insert(
+            "serde".into(),
+            r(serde_json::from_str::<$owned>(&js).map(|i| i.as_str().to_owned())),
+        );
+        let mut out = Map::new();
+        out.insert("display".into(), json!(o.to_string()));
+        out.insert("json".into(), json!(serde_json::to_string(&o).unwrap_or_default()));
+        out.insert("forms".into(), Value::Object(m));
+        out
+    }};
+}
+
+macro_rules! key_id_case {
+    ($ty:ty, $owned:ty, $s:expr) => {{
+        let mut out = checked_forms!($ty, $owned, $s);
+        if let Ok(id) = <&$ty>::try_from($s) {
+            out.insert(
+                "acc".into(),
+                json!({"algorithm": id.algorithm().as_ref() as &str, "key_name": id.key_name().as_str()}),
+            );
+        }
+        out
+    }};
+}
+
+fn parse_id(cmd: &Value) -> OpResult {
+    let ty = s(cmd, "type")?;
+    let st = s(cmd, "s")?;
+    let out = match ty {
+        "user_id" => {
+            let mut out = checked_forms!(UserId, OwnedUserId, st);
+            if let Ok(id) = <&UserId>::try_from(st) {
+                out.insert(
+                    "acc".into(),
+                    json!({
+                        "localpart": id.localpart(),
+                        "server_name": id.server_name().as_str(),
+                        "is_historical": id.is_historical(),
+                        "validate_strict": id.validate_strict().is_ok(),
+                        "validate_historical": id.validate_historical().is_ok(),
+                    }),
+                );
+            }
+            out
+        }
+        "server_name" => {
+            let mut out = checked_forms!(ServerName, OwnedServerName, st);
+            if let Ok(id) = <&ServerName>::try_from(st) {
+                out.insert(
+                    "acc".into(),
+                    json!({"host": id.host(), "port": id.port(), "is_ip_literal": id.is_ip_literal()}),
+                );
+            }
+            out
+        }
+        "room_id" => {
+            let mut out = checked_forms!(RoomId, OwnedRoomId, st);
+            if let Ok(id) = <&RoomId>::try_from(st) {
+                out.insert(
+                    "acc".into(),
+                    json!({"server_name": id.server_name().map(|x| x.as_str())}),
+                );
+            }
+            out
+        }
+        "room_alias_id" => {
+            let mut out = checked_forms!(RoomAliasId, OwnedRoomAliasId, st);
+            if let Ok(id) = <&RoomAliasId>::try_from(st) {
+                out.insert(
+                    "acc".into(),
+                    json!({"alias": id.alias(), "server_name": id.server_name().as_str()}),
+                );
+            }
+            out
+        }
+        "room_or_alias_id" => {
+            let mut out = checked_forms!(RoomOrAliasId, ruma_common::OwnedRoomOrAliasId, st);
+            if let Ok(id) = <&RoomOrAliasId>::try_from(st) {
+                let as_room: Result<&RoomId, _> = id.try_into();
+                let as_alias: Result<&RoomAliasId, _> = id.try_into();
+                out.insert(
+                    "acc".into(),
+                    json!({
+                        "server_name": id.server_name().map(|x| x.as_str()),
+                        "is_room_id": id.is_room_id(),
+                        "is_room_alias_id": id.is_room_alias_id(),
+                        "as_room_id": as_room.ok().map(|x| x.as_str()),
+                        "as_room_alias_id": as_alias.ok().map(|x| x.as_str()),
+                    }),
+                );
+            }
+            out
+        }
+        "event_id" => {
+            let mut out = checked_forms!(EventId, OwnedEventId, st);
+            if let Ok(id) = <&EventId>::try_from(st) {
+                out.insert(
+                    "acc".into(),
+                    json!({
+                        "localpart": id.localpart(),
+                        "server_name": id.server_name().map(|x| x.as_str()),
+                    }),
+                );
+            }
+            out
+        }
+        "server_signing_key_id" => {
+            key_id_case!(ServerSigningKeyId, ruma_common::OwnedServerSigningKeyId, st)
+        }
+        "device_signing_key_id" => {
+            key_id_case!(DeviceSigningKeyId, ruma_common::OwnedDeviceSigningKeyId, st)
+        }
+        "cross_signing_key_id" => {
+            key_id_case!(CrossSigningKeyId, ruma_common::OwnedCrossSigningKeyId, st)
+        }
+        "cross_signing_or_device_signing_key_id" => key_id_case!(
+            CrossSigningOrDeviceSigningKeyId,
+            ruma_common::OwnedCrossSigningOrDeviceSigningKeyId,
+            st
+        ),
+        "device_key_id" => key_id_case!(DeviceKeyId, ruma_common::OwnedDeviceKeyId, st),
+        "one_time_key_id" => key_id_case!(OneTimeKeyId, ruma_common::OwnedOneTimeKeyId, st),
+        "any_signing_key_id" => {
+            key_id_case!(SigningKeyId<AnyKeyName>, ruma_common::OwnedSigningKeyId<AnyKeyName>, st)
+        }
+        "server_signing_key_version" => checked_forms!(
+            ServerSigningKeyVersion,
+            ruma_common::OwnedServerSigningKeyVersion,
+            st
+        ),
+        "client_secret" => checked_forms!(ClientSecret, ruma_common::OwnedClientSecret, st),
+        "base64_public_key" => {
+            checked_forms!(Base64PublicKey, ruma_common::OwnedBase64PublicKey, st)
+        }
+        "session_id" => checked_forms!(SessionId, ruma_common::OwnedSessionId, st),
+        "device_id" => unchecked_forms!(DeviceId, ruma_common::OwnedDeviceId, st),
+        "transaction_id" => unchecked_forms!(TransactionId, ruma_common::OwnedTransactionId, st),
+        "one_time_key_name" => {
+            unchecked_forms!(OneTimeKeyName, ruma_common::OwnedOneTimeKeyName, st)
+        }
+        "voip_id" => unchecked_forms!(VoipId, ruma_common::OwnedVoipId, st),
+        "base64_public_key_or_device_id" => unchecked_forms!(
+            Base64PublicKeyOrDeviceId,
+            ruma_common::OwnedBase64PublicKeyOrDeviceId,
+            st
+        ),
+        "mxc_uri" => {
+            let mut out = unchecked_forms!(MxcUri, ruma_common::OwnedMxcUri, st);
+            let id: &MxcUri = st.into();
+            let parts = id.parts().map(|(sn, mid)| json!({"server_name": sn.as_str(), "media_id": mid}));
+            out.insert(
+                "acc".into(),
+                json!({
+                    "validate": id.validate().map_err(|e| e.to_string()).err(),
+                    "is_valid": id.is_valid(),
+                    "parts": parts.map_err(|e| e.to_string()).ok(),
+                    "server_name": id.server_name().ok().map(|x| x.as_str()),
+                    "media_id": id.media_id().ok(),
+                }),
+            );
+            out
+        }
+        "room_version_id" => {
+            let mut m = Map::new();
+            m.insert(
+                "borrowed".into(),
+                r(RoomVersionId::try_from(st).map(|i| i.as_str().to_owned())),
+            );
+            m.insert(
+                "owned".into(),
+                r(RoomVersionId::try_from(st.to_owned()).map(|i| i.as_str().to_owned())),
+            );
+            m.insert("fromstr".into(), r(st.parse::<RoomVersionId>().map(|i| i.as_str().to_owned())));
+            let js = serde_json::to_string(st).unwrap();
+            m.insert(
+                "serde".into(),
+                r(serde_json::from_str::<RoomVersionId>(&js).map(|i| i.as_str().to_owned())),
+            );
+            let mut out = Map::new();
+            if let Ok(id) = RoomVersionId::try_from(st) {
+                out.insert("display".into(), json!(id.to_string()));
+                out.insert("json".into(), json!(serde_json::to_string(&id).unwrap_or_default()));
+                out.insert("string_from".into(), json!(String::from(id.clone())));
+                out.insert("acc".into(), json!({"has_rules": id.rules().is_some()}));
+            }
+            out.insert("forms".into(), Value::Object(m));
+            out
+        }
+        _ => return Err(format!("harness: unknown id type {ty}")),
+    };
+    Ok(Value::Object(out))
+}
+
+fn construct_id(cmd: &Value) -> OpResult {
+    let kind = s(cmd, "kind")?;
+    let server = || -> Result<&ServerName, String> {
+        <&ServerName>::try_from(s(cmd, "server")?).map_err(|e| format!("harness: server: {e}"))
+    };
+    Ok(match kind {
+        "user_with_server" => {
+            let id = s(cmd, "localpart")?;
+            let sn = server()?;
+            json!({
+                "box": r(UserId::parse_with_server_name(id, sn).map(|x| x.as_str().to_owned())),
+                "rc": r(UserId::parse_with_server_name_rc(id, sn).map(|x| x.as_str().to_owned())),
+                "arc": r(UserId::parse_with_server_name_arc(id, sn).map(|x| x.as_str().to_owned())),
+            })
+        }
+        "user_new" => json!({"ok": UserId::new(server()?).as_str()}),
+        "room_new" => json!({"ok": RoomId::new(server()?).as_str()}),
+        "event_new" => json!({"ok": EventId::new(server()?).as_str()}),
+        "alias_from_parts" => {
+            // no public from_parts for aliases; covered through parsing
+            json!({"ok": null})
+        }
+        "server_signing_key_id" => {
+            let alg = ruma_common::SigningKeyAlgorithm::from(s(cmd, "algorithm")?);
+            let name = <&ServerSigningKeyVersion>::try_from(s(cmd, "name")?)
+                .map_err(|e| format!("harness: name: {e}"))?;
+            json!({"ok": ServerSigningKeyId::from_parts(alg, name).as_str()})
+        }
+        "device_key_id" => {
+            let alg = ruma_common::DeviceKeyAlgorithm::from(s(cmd, "algorithm")?);
+            let name: &DeviceId = s(cmd, "name")?.into();
+            json!({"ok": DeviceKeyId::from_parts(alg, name).as_str()})
+        }
+        "one_time_key_id" => {
+            let alg = ruma_common::OneTimeKeyAlgorithm::from(s(cmd, "algorithm")?);
+            let name: &OneTimeKeyName = s(cmd, "name")?.into();
+            json!({"ok": OneTimeKeyId::from_parts(alg, name).as_str()})
+        }
+        "transaction_new" => json!({"ok": TransactionId::new().as_str()}),
+        "device_new" => json!({"ok": DeviceId::new().as_str()}),
+        "client_secret_new" => json!({"ok": ClientSecret::new().as_str()}),
+        "session_from_tx" => json!({"ok": null}),
+        _ => return Err(format!("harness: unknown constructor {kind}")),
+    })
+}
+
+// ---------------------------------------------------------------------------
+// Matrix URIs (C11)
+
+fn dump_matrix_id(id: &MatrixId) -> Value {
+    match id {
+        MatrixId::Room(x) => json!({"kind": "room", "id": x.as_str()}),
+        MatrixId::RoomAlias(x) => json!({"kind": "alias", "id": x.as_str()}),
+        MatrixId::User(x) => json!({"kind": "user", "id": x.as_str()}),
+        MatrixId::Event(room, ev) => {
+            json!({"kind": "event", "room": room.as_str(), "id": ev.as_str()})
+        }
+        _ => json!({"kind": "unknown"}),
+    }
+}
+
+fn dump_to(u: &MatrixToUri) -> Value {
+    json!({
+        "id": dump_matrix_id(u.id()),
+        "via": u.via().iter().map(|x| x.as_str()).collect::<Vec<_>>(),
+        "text": u.to_string(),
+    })
+}
+
+fn dump_uri(u: &MatrixUri) -> Value {
+    json!({
+        "id": dump_matrix_id(u.id()),
+        "via": u.via().iter().map(|x| x.as_str()).collect::<Vec<_>>(),
+        "action": u.action().map(|a| a.as_str()),
+        "text": u.to_string(),
+    })
+}
+
+fn uri_parse(cmd: &Value) -> OpResult {
+    let text = s(cmd, "text")?;
+    let to = MatrixToUri::parse(text);
+    let uri = MatrixUri::parse(text);
+    let reparse_to = to.as_ref().ok().map(|u| match MatrixToUri::parse(&u.to_string()) {
+        Ok(v) => dump_to(&v),
+        Err(e) => json!({"err": e.to_string()}),
+    });
+    let reparse_uri = uri.as_ref().ok().map(|u| match MatrixUri::parse(&u.to_string()) {
+        Ok(v) => dump_uri(&v),
+        Err(e) => json!({"err": e.to_string()}),
+    });
+    Ok(json!({
+        "matrix_to": match &to { Ok(u) => dump_to(u), Err(e) => json!({"err": e.to_string()}) },
+        "matrix": match &uri { Ok(u) => dump_uri(u), Err(e) => json!({"err": e.to_string()}) },
+        "matrix_to_again": reparse_to,
+        "matrix_again": reparse_uri,
+    }))
+}
+
+fn uri_build(cmd: &Value) -> OpResult {
+    // {"kind": user|room|alias|event|alias_event, "id":.., "event":.., "via":[..], "action": join|chat|null}
+    let kind = s(cmd, "kind")?;
+    let id = s(cmd, "target")?;
+    let via: Vec<OwnedServerName> = cmd
+        .get("via")
+        .and_then(Value::as_array)
+        .map(|a| {
+            a.iter()
+                .filter_map(|v| v.as_str())
+                .map(|v| OwnedServerName::try_from(v).map_err(|e| format!("harness: via {v:?}: {e}")))
+                .collect::<Result<Vec<_>, _>>()
+        })
+        .transpose()?
+        .unwrap_or_default();
+    let flag = b(cmd, "flag");
+    let h = |e: ruma_common::IdParseError| format!("harness: id {id:?}: {e}");
+    let (to, uri): (MatrixToUri, MatrixUri) = match kind {
+        "user" => {
+            let u = <&UserId>::try_from(id).map_err(h)?;
+            (u.matrix_to_uri(), u.matrix_uri(flag))
+        }
+        "room" => {
+            let r = <&RoomId>::try_from(id).map_err(h)?;
+            if via.is_empty() && !b(cmd, "force_via") {
+                (r.matrix_to_uri(), r.matrix_uri(flag))
+            } else {
+                (r.matrix_to_uri_via(via.clone()), r.matrix_uri_via(via.clone(), flag))
+            }
+        }
+        "alias" => {
+            let a = <&RoomAliasId>::try_from(id).map_err(h)?;
+            (a.matrix_to_uri(), a.matrix_uri(flag))
+        }
+        "event" => {
+            let r = <&RoomId>::try_from(id).map_err(h)?;
+            let ev = <&EventId>::try_from(s(cmd, "event")?)
+                .map_err(|e| format!("harness: event: {e}"))?;
+            if via.is_empty() && !b(cmd, "force_via") {
+                (r.matrix_to_event_uri(ev), r.matrix_event_uri(ev))
+            } else {
+                (r.matrix_to_event_uri_via(ev, via.clone()), r.matrix_event_uri_via(ev, via.clone()))
+            }
+        }
+        "alias_event" => {
+            let a = <&RoomAliasId>::try_from(id).map_err(h)?;
+            let ev = <&EventId>::try_from(s(cmd, "event")?)
+                .map_err(|e| format!("harness: event: {e}"))?;
+            #[allow(deprecated)]
+            (a.matrix_to_event_uri(ev), a.matrix_event_uri(ev))
+        }
+        _ => return Err(format!("harness: unknown uri kind {kind}")),
+    };
+    let back_to = match MatrixToUri::parse(&to.to_string()) {
+        Ok(v) => dump_to(&v),
+        Err(e) => json!({"err": e.to_string()}),
+    };
+    let back_uri = match MatrixUri::parse(&uri.to_string()) {
+        Ok(v) => dump_uri(&v),
+        Err(e) => json!({"err": e.to_string()}),
+    };
+    let _ = UriAction::Join;
+    Ok(json!({
+        "matrix_to": dump_to(&to), "matrix": dump_uri(&uri),
+        "matrix_to_back": back_to, "matrix_back": back_uri,
+    }))
+}
+
+pub fn dispatch(op: &str, cmd: &Value) -> Option<OpResult> {
+    let _ = opt_s;
+    Some(match op {
+        "parse_id" => parse_id(cmd),
+        "construct_id" => construct_id(cmd),
+        "uri_parse" => uri_parse(cmd),
+        "uri_build" => uri_build(cmd),
+        _ => return None,
+    })
 }
